@@ -94,7 +94,13 @@ def cases(tier, seed):
                    "shuffle": shuffle, "const": const,
                    "resow": const.startswith("farmer")
                    and (n + (req or 0)) % 3 == 0,
-                   "again": (n + (req or 0)) % 4 == 1}
+                   "again": (n + (req or 0)) % 4 == 1,
+                   # (not with a count above N: the capped count is kept on
+                   # the Crop object and an identical second request would
+                   # then contradict it)
+                   "at_sow": mode != "default" and not (
+                       mode == "num_batches" and req > n) and core.pick(
+                       [n, mode, req, kind, "at"], 3) == 0}
 
 
     # crops with more than 100 batches (three-digit ids, any internal window)
@@ -177,31 +183,38 @@ def check_case(case):
     kws = {}
     if mode != "default":
         kws[mode] = req
+    ckw = {} if case.get("at_sow") else kws
     if farmer:
-        crop = runner.Crop(name="c7", parent_dir=d, **kws)
+        crop = runner.Crop(name="c7", parent_dir=d, **ckw)
         sow_consts = dict(override) if override else None
     else:
         crop = xyz.Crop(fn=f, name="c7", parent_dir=d,
                         shuffle=(shuffle if kind in ("cases", "mix2")
                                  else False),
-                        **kws)
+                        **ckw)
         sow_consts = dict(constants) if constants else None
+
+    # (the batch request may be given to the sow call instead of the
+    # constructor)
+    skw = dict(kws) if case.get("at_sow") else {}
 
     def sow():
         sc = dict(sow_consts) if sow_consts else None
         if kind == "mix2":
             # cases x sub-grid through sow_cases (sub-grid in parsed form)
             crop.sow_cases(fn_args, list(dcases), constants=sc, verbosity=0,
-                           combos=tuple(copy.deepcopy(dcombos).items()))
+                           combos=tuple(copy.deepcopy(dcombos).items()),
+                           **skw)
         elif kind == "cases":
-            crop.sow_cases(fn_args, list(dcases), constants=sc, verbosity=0)
+            crop.sow_cases(fn_args, list(dcases), constants=sc, verbosity=0,
+                           **skw)
         elif kind == "grid":
             crop.sow_combos(copy.deepcopy(dcombos), constants=sc,
-                            shuffle=shuffle, verbosity=0)
+                            shuffle=shuffle, verbosity=0, **skw)
         else:
             crop.sow_combos(copy.deepcopy(dcombos),
                             cases=[dict(zip(fn_args, c)) for c in dcases],
-                            constants=sc, shuffle=shuffle, verbosity=0)
+                            constants=sc, shuffle=shuffle, verbosity=0, **skw)
 
     sow()
 
